@@ -613,6 +613,11 @@ inductive Op where
   | mkbuf (a : Nat)                                            -- `bytearray(a.to_bytes()[1])`
   | decode (c : Nat) (b : Nat)                                 -- `Cls.from_bytes(buffer b)`
   | scribble (b : Nat)                                         -- overwrite buffer `b` in place
+  | copy (b : Nat) (pb : List Step) (k : Key) (a : Nat) (pa : List Step)
+      -- `obj = read b pb; v = read a pa; obj[k] = v` on a FIX segment: `__setitem__` stores `from_value(v)`, which rebuilds
+      -- containers and groups entry by entry (deep copy).  (Binary `__setattr__` stores the reference as given: aliasing the
+      -- caller made himself, outside the statement and not modelled.)
+  | clone (a : Nat)                                            -- `Cls({seg: SegCls.from_value(a.<seg>) for the 3 segments})`
   deriving Repr, Inhabited
 
 def getInst (H : Heap) (a : Nat) : Except Err (Nat × Addr) :=
@@ -632,6 +637,41 @@ def mutTarget (S : Schema) (H : Heap) (a : Nat) (p : List Step) : Except Err (Op
 
 def listSet (xs : List Val) (i : Nat) (v : Val) : Except Err (List Val) :=
   if i < xs.length then .ok (xs.set i v) else .error .index
+
+/-- the stored object graph below `v` as a pure tree: what an entry-by-entry rebuild (`from_value`) walks over -/
+def toTree : Nat → Cells → Val → Except Err Tree
+  | _, _, .int i => .ok (.int i)
+  | _, _, .str s => .ok (.str s)
+  | _, _, .none => .ok .none
+  | _, _, .elist => .ok (.list [])
+  | 0, _, .ref _ => .error .other
+  | n + 1, h, .ref a =>
+    match h[a]? with
+    | some ⟨_, .list xs⟩ => do
+      let ts ← mapMExcept (toTree n h) xs
+      pure (.list ts)
+    | some ⟨_, .obj c st⟩ => do
+      let ts ← mapMExcept (fun kv => toTree n h kv.2) st
+      pure (.obj c (st.map (·.1)) ts)
+    | _ => .error .other
+
+/-- what is stored for `seg[k] = v` when `v` is an object read from an instance (tree `t` of its stored graph):
+    `GroupContainer.from_value` → `GroupCls.from_value(g)` accepts a group only if it is an instance of `GroupCls`
+    (anything else that is not a dict raises TypeError), then rebuilds it like a dict -/
+def convCopy (S : Schema) (c : Nat) (k : Key) (t : Tree) : Except Err Tree :=
+  match S.classes[c]? with
+  | some (.fixSeg _ es) =>
+    match findEntry es k with
+    | some (.group tag g) =>
+      match t with
+      | .list ds =>
+        if ds.all (fun d => match d with
+          | .obj c' _ _ => c' == g
+          | _ => false) then fixConv S (S.classes.length + 1) (.group tag g) t else .error .type
+      | _ => .error .type
+    | some e => fixConv S (S.classes.length + 1) e t
+    | Option.none => .error .key
+  | _ => .error .other
 
 /-- one operation; an exception leaves the heap as it was -/
 def step (S : Schema) (H : Heap) : Op → Except Err Heap
@@ -693,6 +733,27 @@ def step (S : Schema) (H : Heap) : Op → Except Err Heap
       match H.cells[ba]? with
       | some ⟨_, .buf bs⟩ => .ok { H with cells := setBody H.cells ba (.buf (bs.map (fun _ => 255))) }
       | _ => .error .other
+  | .copy b pb k a pa => do
+    let some r ← mutTarget S H b pb | .error .attr
+    let cr ← getInst H a
+    let v ← resolve S H.cells (.ref cr.2) pa
+    match H.cells[r]? with
+    | some ⟨_, .obj c st⟩ => do
+      let t ← toTree (obsDepth S) H.cells v
+      let t' ← convCopy S c k t
+      let al := allocTree (.inst b) t' H.cells
+      .ok { H with cells := setBody al.1 r (.obj c (storeSet st k al.2)) }
+    | _ => .error .attr
+  | .clone a => do
+    let cr ← getInst H a
+    match S.classes[cr.1]? with
+    | some (.fixMsg _ _ _) => do
+      let t ← toTree (obsDepth S) H.cells (.ref cr.2)
+      let r := allocTree (.inst H.insts.length) t H.cells
+      match r.2 with
+      | .ref root => .ok { H with cells := r.1, insts := H.insts ++ [(cr.1, root)] }
+      | _ => .error .other
+    | _ => .error .other
 
 /-- the process at import time: the class-level list exists and is empty -/
 def init : Heap := { cells := [⟨.cls, .list []⟩], insts := [], bufs := [] }
@@ -707,7 +768,7 @@ def run (S : Schema) (H : Heap) (ops : List Op) : Heap := ops.foldl (stepK S) H
 
 /-- ghost: tag of the cell an in-place operation would write to (`none`: the operation writes to no existing cell) -/
 def writeOwner (S : Schema) (H : Heap) : Op → Option Owner
-  | .assign a p _ _ | .append a p _ | .setIdx a p _ _ =>
+  | .assign a p _ _ | .append a p _ | .setIdx a p _ _ | .copy a p _ _ _ =>
     match mutTarget S H a p with
     | .ok (some r) => (H.cells[r]?).map (·.own)
     | _ => Option.none
@@ -726,6 +787,8 @@ def safeRun (S : Schema) : Heap → List Op → Bool
 def Op.target (H : Heap) : Op → Nat
   | .new _ => H.insts.length
   | .decode _ _ => H.insts.length
+  | .clone _ => H.insts.length
+  | .copy b _ _ _ _ => b
   | .read a _ | .assign a _ _ _ | .append a _ _ | .setIdx a _ _ _ | .encode a | .mkbuf a => a
   | .scribble _ => H.insts.length     -- a buffer is nobody's: no instance may change
 
